@@ -57,6 +57,14 @@ func decorate(r *core.Rng, s string) string {
 		if ch == '"' && (i == 0 || s[i-1] != '\\') {
 			inStr = !inStr
 		}
+		if !inStr && ch == ' ' && i+1 < len(s) && s[i+1] == '}' && r.Bool(.25) {
+			// a comment right before a closing brace (same line or own line)
+			if r.Bool(.5) {
+				b.WriteString(" " + core.Pick(r, c03Comments[2:4]))
+			} else {
+				b.WriteString("\n" + core.Pick(r, c03Comments[:2]) + "\n")
+			}
+		}
 		b.WriteByte(ch)
 		if inStr || i+1 >= len(s) || s[i+1] != ' ' {
 			continue
@@ -126,6 +134,17 @@ func (c03) Generate(r *core.Rng, run int, tier string) *core.History {
 			lines = append(lines, core.Pick(r, c03Comments))
 		}
 		texts = append(texts, strings.Join(lines, "\n"))
+	}
+	if r.Bool(.35) {
+		// long literals that differ only in their tail (same length, same first 64+ bytes): a token
+		// table keyed too coarsely would hand out the first one for the second
+		stem := strings.Repeat(core.Pick(r, []string{"lorem ipsum ", "0123456789", "The quick brown fox "}), 12)[:70+r.Intn(20)]
+		a, b := r.Intn(5), 5+r.Intn(5)
+		if r.Bool(.5) {
+			texts = append(texts, fmt.Sprintf("// %s phase %d\nx = 1", stem, a), fmt.Sprintf("// %s phase %d\nx = 1", stem, b))
+		} else {
+			texts = append(texts, fmt.Sprintf("msg = \"%s %d\"", stem, a), fmt.Sprintf("msg = \"%s %d\"", stem, b))
+		}
 	}
 	nEv := 6 + r.Intn(14)
 	for i := 0; i < nEv; i++ {
